@@ -443,7 +443,7 @@ package zerolog
 //@   props C01 C03 C04 C05
 //@   arith int
 //@   requires l != nil && gLevel != nil && disableSampling != nil && logctx(l.context)
-//@   ensures [C04] ncalls(Logger.should) == old(ncalls(Logger.should)) + 1 && callarg(Logger.should, old(ncalls(Logger.should)), 0) == l && callarg(Logger.should, old(ncalls(Logger.should)), 1) == level
+//@   ensures [C04,C13] ncalls(Logger.should) == old(ncalls(Logger.should)) + 1 && callarg(Logger.should, old(ncalls(Logger.should)), 0) == l && callarg(Logger.should, old(ncalls(Logger.should)), 1) == level
 //@   ensures [C04] (res == nil) == !callres(Logger.should, old(ncalls(Logger.should)), 0)
 //@   ensures [C04] res == nil ==> ncalls(done) == old(ncalls(done)) + ite(done != nil, 1, 0) && ncalls(newEvent) == old(ncalls(newEvent))
 //@   ensures [C04] res != nil ==> ncalls(done) == old(ncalls(done))
